@@ -83,6 +83,7 @@ extern Stats g_stats;
 void set_current_case(const std::string &text);
 void set_current_case_lazy(std::string (*render)(void *), void *ctx); // rendered only when a crash happens
 void install_crash_capture();
+void disable_crash_capture(); // for forked children whose death is handled by their parent (c18)
 
 std::string read_file(const std::string &path);
 void write_file(const std::string &path, const std::string &data);
